@@ -27,7 +27,16 @@ func TestC14Stress(t *testing.T) {
 	const sub = "C14.contention_workloads"
 	ev.Rule(sub, "rapid, binary built with -race: generated stack (memory/UDP bases, every layer kind to depth 2, P2PKE and QUIC included), 2-3 nodes, 4-12 goroutines per node mixing Tell, Ask, Receive, ServeAsk, LookupPublicKey, LocalAddrs, MTU for ~150 ms, then Close while calls are still running. Every receive callback checksums its payload at entry, overwrites it with its own pattern (the interface allows modification), yields, and verifies its own pattern at exit; deliveries are checked against the C01 ledger. Oracle: no race report with a frame of the library (reports confined to third-party packages are logged, not counted), callback views stable from entry to exit, ledger holds. non-trivial = >= 2 goroutines per method on one swarm; distinct by (spec, goroutine mix)")
 	rapid.Check(t, func(t *rapid.T) {
-		spec := genSpec(t, specOpts{maxDepth: 2, bases: []string{"mem", "mem", "mem", "udp"}, honestFrag: true})
+		spec := genSpec(t, specOpts{maxDepth: 2, bases: []string{"mem", "mem", "mem", "udp"}, honestFrag: true, smallQueues: true})
+		if rapid.IntRange(0, 2).Draw(t, "shortQueueFragmenting") == 0 {
+			// a fragmenting / message-box layer directly on a transport that recycles its few receive buffers quickly
+			top := stack.Layer{Kind: "frag", MTU: 2000}
+			if rapid.Bool().Draw(t, "mbappTop") {
+				top = stack.Layer{Kind: "mbapp", MTU: 2000, N: 2}
+			}
+			spec = stack.Spec{Base: "mem", BaseMTU: rapid.SampledFrom([]int{100, 256}).Draw(t, "innerMTU"), QueueLen: rapid.SampledFrom([]int{2, 4, 8}).Draw(t, "shortQueue"), Layers: []stack.Layer{top}}
+		}
+		cbWork := time.Duration(rapid.SampledFrom([]int{0, 0, 200, 1000}).Draw(t, "callbackMicros")) * time.Microsecond
 		nNodes := rapid.IntRange(2, 3).Draw(t, "nodes")
 		tellers := rapid.IntRange(1, 4).Draw(t, "tellers")
 		askers := rapid.IntRange(0, 3).Draw(t, "askers")
@@ -67,6 +76,9 @@ func TestC14Stress(t *testing.T) {
 								m.Payload[j] = pattern
 							}
 							runtime.Gosched()
+							if cbWork > 0 {
+								time.Sleep(cbWork)
+							}
 							for j := range m.Payload {
 								if m.Payload[j] != pattern {
 									problem("node %d: the message buffer changed while the callback was running (byte %d of %d)", i, j, len(m.Payload))
@@ -191,6 +203,116 @@ func TestC14Stress(t *testing.T) {
 		ev.Eval(sub)
 		ev.Class(sub, fmt.Sprintf("delivered>0=%v", delivered.Load() > 0))
 		if tellers >= 2 && receivers >= 2 {
+			if ev.NonTrivial(sub, desc) {
+				ev.Sample(sub, desc)
+			}
+		}
+		var ps []string
+		problems.Range(func(k, _ any) bool { ps = append(ps, k.(string)); return len(ps) < 3 })
+		if len(ps) > 0 {
+			t.Fatalf("%s\ncase: %s", strings.Join(ps, "; "), desc)
+		}
+	})
+}
+
+// TestC14ChannelClose: one channel of a multiplexer is closed while its receive callback is running
+// and traffic for the other channels keeps arriving on the same inner swarm.
+func TestC14ChannelClose(t *testing.T) {
+	const sub = "C14.channel_close_during_callback"
+	ev.Rule(sub, "rapid, binary built with -race: two nodes on an in-memory transport with a short receive queue (1-8 buffers), one multiplexer each with 2-3 channels (or a fragmenting / message-box layer with short queues and interleaved traffic), receivers whose callbacks checksum the payload at entry, hold it for 0.2-2 ms and verify it at exit, a sender flooding all channels; one channel is closed while its callbacks are running and the flood continues. Oracle: the callback's view of its payload is stable from entry to exit and equals a told payload; no race report with a library frame. non-trivial = close landed while a callback of that channel was running; distinct by (kind, queue, timing)")
+	rapid.Check(t, func(t *rapid.T) {
+		kind := rapid.SampledFrom(muxKinds).Draw(t, "kind")
+		q := rapid.SampledFrom([]int{1, 2, 4, 8}).Draw(t, "queueLen")
+		hold := time.Duration(rapid.SampledFrom([]int{200, 1000, 2000}).Draw(t, "holdMicros")) * time.Microsecond
+		nch := rapid.IntRange(2, 3).Draw(t, "channels")
+		closeAfter := time.Duration(rapid.IntRange(2, 15).Draw(t, "closeAfterMs")) * time.Millisecond
+		spec := stack.Spec{Base: "mem", BaseMTU: 1500, QueueLen: q}
+		w, err := stack.Build(spec, 2, 0)
+		if err != nil {
+			t.Fatalf("harness: %v", err)
+		}
+		a, b := w.Nodes[0], w.Nodes[1]
+		ids := []string{"1", "2", "3"}[:nch]
+		ca, err := stack.OpenMux(kind, a.S, false, ids)
+		if err != nil {
+			t.Fatalf("OpenMux: %v", err)
+		}
+		cb, err := stack.OpenMux(kind, b.S, false, ids)
+		if err != nil {
+			t.Fatalf("OpenMux: %v", err)
+		}
+		var problems sync.Map
+		var inCallback [3]atomic.Int32
+		var closedDuring atomic.Bool
+		ctx, cancel := context.WithCancel(context.Background())
+		var wg sync.WaitGroup
+		for ci, ch := range cb {
+			for r := 0; r < 2; r++ {
+				ci, ch := ci, ch
+				wg.Add(1)
+				go func() {
+					defer wg.Done()
+					for {
+						err := ch.Receive(ctx, func(m stack.Msg) {
+							inCallback[ci].Add(1)
+							defer inCallback[ci].Add(-1)
+							before := append([]byte{}, m.Payload...)
+							time.Sleep(hold)
+							if !bytes.Equal(before, m.Payload) {
+								problems.LoadOrStore(fmt.Sprintf("channel %s: the payload changed while the callback was running (%q -> %q)", ids[ci], clip(before), clip(m.Payload)), true)
+							}
+							want := bytes.Repeat([]byte{byte('A' + ci)}, len(before))
+							if !bytes.Equal(before, want) {
+								problems.LoadOrStore(fmt.Sprintf("channel %s received %q, which was not told on it", ids[ci], clip(before)), true)
+							}
+						})
+						if err != nil {
+							return
+						}
+					}
+				}()
+			}
+		}
+		// flood
+		for ci, ch := range ca {
+			ci, ch := ci, ch
+			wg.Add(1)
+			go func() {
+				defer wg.Done()
+				payload := bytes.Repeat([]byte{byte('A' + ci)}, 200+50*ci)
+				for ctx.Err() == nil {
+					tctx, cf := context.WithTimeout(ctx, 50*time.Millisecond)
+					ch.Tell(tctx, b.Local(), p2p.IOVec{payload})
+					cf()
+					time.Sleep(50 * time.Microsecond)
+				}
+			}()
+		}
+		time.Sleep(closeAfter)
+		if inCallback[0].Load() > 0 {
+			closedDuring.Store(true)
+		}
+		cb[0].Close()
+		time.Sleep(10 * time.Millisecond) // the flood on the other channels continues
+		for _, c := range append(append([]stack.Swarm{}, ca...), cb[1:]...) {
+			c.Close()
+		}
+		closed := make(chan struct{})
+		go func() { w.Close(); close(closed) }()
+		select {
+		case <-closed:
+		case <-time.After(3 * time.Second):
+		}
+		cancel()
+		done := make(chan struct{})
+		go func() { wg.Wait(); close(done) }()
+		select {
+		case <-done:
+		case <-time.After(3 * time.Second):
+		}
+		ev.Eval(sub)
+		desc := fmt.Sprintf("kind=%s queue=%d hold=%v channels=%d closeAfter=%v", kind, q, hold, nch, closeAfter)
+		if closedDuring.Load() {
 			if ev.NonTrivial(sub, desc) {
 				ev.Sample(sub, desc)
 			}
